@@ -90,6 +90,18 @@ CHECKS = {
                 text='Hann = 0.5(1-cos(2 pi p)) with bit-exact 2 pi, Rectangle = identity, Window::new step 1/(n-1) from phase 0, one phase step per item, Windowed = window x source; Windower transition '
                      '(Some iff bin <= L, chunk frames[..bin], L\' = L-hop or 0); size_hint guard = next guard and count = (L-bin)/hop+1. Chunk count closed form by induction (paper).',
                 note=TB + '; rounding ignored in the Hann identity.'),
+    'C17': dict(level='other', ref='DESIGN.md §5 C17',
+                technique='path summaries + rational-function normal form + interval evaluation; exact Sturm-based maximisation of the extracted simplex polynomial',
+                text='Phase protocol (starts at 0, returns old phase, stores (old + step()) % rem with one step()), step = hz/rate / one pull per frame, sine/saw/square formulas (2 pi bit-exact) and '
+                     'their ranges, noise = pure function of the seed with output in [-1+2^-30, 1] and seed += 1, simplex: wrap 2^16, table indices through `as u8`, and a rigorous bound '
+                     'sup|0.395(n0+n1)| = 0.99984 <= 1 computed from the extracted polynomial. Long-run phase drift is not decided.',
+                note=TB + '; |sin| <= 1; fmod of a non-negative dividend lies in [0, rem).'),
+    'C18': dict(level='other', ref='DESIGN.md §5 C18',
+                technique='path summaries + scalarisation of the fold closure into piecewise rational functions; Fourier-Motzkin for the tap-count arithmetic',
+                text='State protocol (new: even length asserted, idx 0; next_source_frame: one push, idx+1 iff idx < depth; reset), kernel per tap = sinc(pi(phi+n)) * (0.5+0.5cos(pi(phi+n)/depth)) with '
+                     'guarded divisions, phi = x left / 1-x right, each tap added once to an accumulator starting at EQUILIBRIUM, coefficients free of frame data (linearity), tap count <= idx+1 in all three '
+                     'branches. The 1e-12 / 1 % numeric statements are NOT decided (paper).',
+                note=TB + '; amplitude abstraction; rounding ignored.'),
 }
 
 NOT_YET = 'check not implemented yet in this revision of /verif (see DESIGN.md §10 build order)'
